@@ -334,5 +334,526 @@ theorem dpWrite_view (w0 : Win) (dp : Dp) (hwf : DpWF w0.bytes dp) (offset : Nat
     unfold scatter at hc
     rcases chunkOf_le dp (x / dp.lv3.bs) with h0 | h0 <;> rw [h0] at hc <;> omega
 
+/-! ### the regular geometry, as propositions -/
+
+structure GeomP (P : Bytes) (t : Tree) (master : List Bytes) : Prop where
+  dpwf : DpWF P t.dp
+  inside : ∀ i, i < 4 → t.internal i = true → (t.level i).offset + (t.level i).size ≤ t.dp.lv3.size
+  ext : ∀ eo es, t.external = some (eo, es) → es = t.ivfc.lv4.size ∧ eo + es ≤ P.length ∧
+    (eo + es ≤ t.dp.lv3.offset ∨ t.dp.lv3.offset + t.dp.lv3.size * 2 ≤ eo)
+  apart : ∀ i j, i < 4 → j < 4 → i ≠ j → t.internal i = true → t.internal j = true →
+    ((t.level i).offset + (t.level i).size ≤ (t.level j).offset ∨ (t.level j).offset + (t.level j).size ≤ (t.level i).offset)
+  room : ∀ i, i < 3 → nblocks (t.level (i + 1)).size (t.level (i + 1)).bs * 0x20 ≤ (t.level i).size
+  master : nblocks (t.level 0).size (t.level 0).bs ≤ master.length
+
+theorem geomOK_spec (P : Bytes) (t : Tree) (master : List Bytes) (h : geomOK P t master = true) : GeomP P t master := by
+  unfold geomOK at h
+  simp only [Bool.and_eq_true, decide_eq_true_eq, List.all_eq_true, List.mem_range, Bool.or_eq_true, Bool.not_eq_true'] at h
+  obtain ⟨⟨⟨⟨⟨⟨h1, h2⟩, h3⟩, h4⟩, h5⟩, h6⟩, h7⟩ := h
+  refine ⟨⟨h1, h2⟩, ?_, ?_, ?_, h6, h7⟩
+  · intro i hi hint
+    rcases h3 i hi with h | h
+    · rw [hint] at h; cases h
+    · exact h
+  · intro eo es he
+    rw [he] at h4
+    simp only [Bool.and_eq_true, decide_eq_true_eq] at h4
+    exact ⟨h4.1.1, h4.1.2, h4.2⟩
+  · intro i j hi hj hne hii hij
+    rcases h5 i hi j hj with ((h | h) | h) | h
+    · exact absurd h hne
+    · rw [hii] at h; cases h
+    · rw [hij] at h; cases h
+    · unfold Tree.apart at h
+      simpa using h
+
+theorem geomP_treeWF (P : Bytes) (t : Tree) (master : List Bytes) (g : GeomP P t master) : TreeWF P t := by
+  refine ⟨g.dpwf, ?_, ?_⟩
+  · intro idx hext
+    by_cases h3 : 3 ≤ idx
+    · have hl : t.level idx = t.level 3 := by
+        unfold Tree.level
+        rw [if_neg (by omega), if_neg (by omega), if_neg (by omega)]
+        rfl
+      rw [hl]
+      apply g.inside 3 (by omega)
+      unfold Tree.internal
+      rw [hext h3]; rfl
+    · apply g.inside idx (by omega)
+      unfold Tree.internal
+      simp [h3]
+  · intro eo es he
+    exact ⟨(g.ext eo es he).1, (g.ext eo es he).2.1⟩
+
+theorem internal_iff (t : Tree) (j : Nat) : t.internal j = true ↔ (if 3 ≤ j then t.external else none) = none := by
+  unfold Tree.internal
+  by_cases h3 : 3 ≤ j
+  · rw [if_pos h3]
+    cases t.external <;> simp [h3]
+  · rw [if_neg h3]; simp [h3]
+
+theorem levelBytes_internal (P : Bytes) (t : Tree) (j : Nat) (h : t.internal j = true) :
+    levelBytes P t j = slice (dpfsView P t.dp) (t.level j).offset (t.level j).size := by
+  unfold levelBytes levelFrom
+  rw [(internal_iff t j).mp h]
+
+theorem levelBytes_external (P : Bytes) (t : Tree) (j eo es : Nat) (h3 : 3 ≤ j) (he : t.external = some (eo, es)) :
+    levelBytes P t j = slice (slice P eo es) 0 (t.level j).size := by
+  unfold levelBytes levelFrom
+  rw [if_pos h3, he]
+
+theorem dpfsView_congr (P P' : Bytes) (dp : Dp) (hwf : DpWF P dp) (hlen : P'.length = P.length)
+    (h : ∀ y, dp.lv3.offset ≤ y → y < dp.lv3.offset + dp.lv3.size * 2 → P'[y]? = P[y]?) : dpfsView P' dp = dpfsView P dp := by
+  have hwf' : DpWF P' dp := ⟨hwf.bits, by rw [hlen]; exact hwf.inside⟩
+  apply List.ext_getElem?
+  intro x
+  by_cases hx : x < dp.lv3.size
+  · rw [dpfsView_getElem _ _ hwf' x hx, dpfsView_getElem _ _ hwf x hx]
+    apply h
+    · omega
+    · rcases chunkOf_le dp (x / dp.lv3.bs) with h0 | h0 <;> rw [h0] <;> omega
+  · rw [List.getElem?_eq_none (by rw [dpfsView_length _ _ hwf']; omega), List.getElem?_eq_none (by rw [dpfsView_length _ _ hwf]; omega)]
+
+/-- **`level_fp.seek(off); level_fp.write(data)`** for a non-empty write inside level `idx`: that level becomes the old level
+    with the data laid over it, the other levels and the geometry stay as they are, the file changes only inside the partition -/
+theorem levelWrite_spec (w : Win) (t : Tree) (master : List Bytes) (g : GeomP w.bytes t master) (idx : Nat) (hidx : idx < 4)
+    (off : Nat) (data : Bytes) (hne : data ≠ []) (hin : off + data.length ≤ (t.level idx).size)
+    (n : Nat) (w' : Win) (h : levelWrite w t idx off data = .ok (n, w')) :
+    w'.off = w.off ∧ w'.size = w.size ∧ w'.F.length = w.F.length ∧
+      (∀ z, (z < w.off ∨ w.off + w.size ≤ z) → w'.F[z]? = w.F[z]?) ∧ w'.bytes.length = w.bytes.length ∧
+      (∀ m, GeomP w.bytes t m → GeomP w'.bytes t m) ∧
+      (∀ j, j < 4 → levelBytes w'.bytes t j = if j = idx then overlay (levelBytes w.bytes t idx) off data else levelBytes w.bytes t j) := by
+  have hdl : 0 < data.length := by cases data with | nil => exact absurd rfl hne | cons a r => simp
+  have htw := geomP_treeWF _ _ _ g
+  unfold levelWrite at h
+  simp only at h
+  rw [Nat.min_eq_left (by omega : off ≤ (t.level idx).size), List.take_of_length_le (by omega)] at h
+  cases hx : (if 3 ≤ idx then t.external else none) with
+  | none =>
+    rw [hx] at h
+    simp only at h
+    have hint : t.internal idx = true := (internal_iff t idx).mpr hx
+    have hins := g.inside idx hidx hint
+    rw [Nat.min_eq_left (by omega)] at h
+    obtain ⟨v1, v2, v3, v4, v5, v6, v7, v8⟩ := dpWrite_view w t.dp g.dpwf _ data hne (by omega) w' n h
+    have hbl : w'.bytes.length = w.bytes.length := by rw [Win.bytes_length, Win.bytes_length, v2, v3, v4]
+    have hVl := dpfsView_length _ _ g.dpwf
+    refine ⟨v2, v3, v4, v5, hbl, ?_, ?_⟩
+    · intro m gm
+      exact ⟨v6, gm.inside, fun eo es he => by rw [hbl]; exact gm.ext eo es he, gm.apart, gm.room, gm.master⟩
+    · intro j hj
+      by_cases hji : j = idx
+      · subst hji
+        rw [if_pos rfl, levelBytes_internal _ _ _ hint, levelBytes_internal _ _ _ hint, v7,
+          slice_overlay_window _ _ _ _ _ hin (by rw [hVl]; exact hins)]
+      · rw [if_neg hji]
+        by_cases hjint : t.internal j = true
+        · rw [levelBytes_internal _ _ _ hjint, levelBytes_internal _ _ _ hjint, v7]
+          apply slice_overlay_disjoint'
+          · rcases g.apart j idx hj hidx hji hjint hint with ha | ha
+            · left; omega
+            · right; omega
+          · rw [hVl]; omega
+        · have hjx : (if 3 ≤ j then t.external else none) ≠ none := fun hc => hjint ((internal_iff t j).mpr hc)
+          have h3 : 3 ≤ j := by
+            by_cases h3 : 3 ≤ j
+            · exact h3
+            · rw [if_neg h3] at hjx; exact absurd rfl hjx
+          rw [if_pos h3] at hjx
+          cases he : t.external with
+          | none => exact absurd he hjx
+          | some p =>
+            obtain ⟨eo, es⟩ := p
+            obtain ⟨e1, e2, e3⟩ := g.ext eo es he
+            rw [levelBytes_external _ _ _ _ _ h3 he, levelBytes_external _ _ _ _ _ h3 he]
+            congr 1
+            apply slice_congr
+            intro i hi1 hi2
+            apply v8
+            omega
+  | some p =>
+    obtain ⟨eo, es⟩ := p
+    rw [hx] at h
+    simp only at h
+    have h3 : 3 ≤ idx := by
+      by_cases h3 : 3 ≤ idx
+      · exact h3
+      · rw [if_neg h3] at hx; cases hx
+    rw [if_pos h3] at hx
+    obtain ⟨e1, e2, e3⟩ := g.ext eo es hx
+    have hl : (t.level idx).size = es := by
+      rw [e1]; unfold Tree.level
+      rw [if_neg (by omega), if_neg (by omega), if_neg (by omega)]
+    rw [Nat.min_eq_left (by omega : off ≤ es), List.take_of_length_le (by omega)] at h
+    have hpair := Except.ok.inj h
+    have hw : (w.write (eo + off) data).2 = w' := by rw [hpair]
+    obtain ⟨s1, s2, s3, s4, s5, s6⟩ := Win.write_spec w (eo + off) data (by omega)
+    rw [hw] at s2 s3 s4 s5 s6
+    have hbl : w'.bytes.length = w.bytes.length := by rw [Win.bytes_length, Win.bytes_length, s3, s4, s5]
+    have hdpv : dpfsView w'.bytes t.dp = dpfsView w.bytes t.dp := by
+      apply dpfsView_congr _ _ _ g.dpwf hbl
+      intro y hy1 hy2
+      rw [s2, overlay_getElem?]
+      by_cases hlo : y < eo + off
+      · rw [if_pos hlo, if_pos (by omega)]
+      · rw [if_neg hlo, if_neg (by omega)]
+    refine ⟨s3, s4, s5, s6, hbl, ?_, ?_⟩
+    · intro m gm
+      exact ⟨⟨gm.dpwf.bits, by rw [hbl]; exact gm.dpwf.inside⟩, gm.inside, fun eo es he => by rw [hbl]; exact gm.ext eo es he,
+        gm.apart, gm.room, gm.master⟩
+    · intro j hj
+      by_cases hji : j = idx
+      · subst hji
+        rw [if_pos rfl, levelBytes_external _ _ _ _ _ h3 hx, levelBytes_external _ _ _ _ _ h3 hx, hl, s2]
+        have hsl : (slice w.bytes eo es).length = es := by rw [slice_length]; omega
+        rw [slice_overlay_window' _ _ _ _ _ (by omega), slice_all _ _ (by rw [overlay_length_inside _ _ _ (by omega), hsl]; omega),
+          slice_all _ _ (by omega)]
+      · rw [if_neg hji]
+        have hjint : t.internal j = true := by
+          unfold Tree.internal
+          have : ¬ 3 ≤ j := by omega
+          simp [this]
+        rw [levelBytes_internal _ _ _ hjint, levelBytes_internal _ _ _ hjint, hdpv]
+
+/-- the sequential re-read of the touched blocks yields the hashes of those blocks of the level -/
+theorem reread_spec (H : Bytes → Bytes) (P : Bytes) (t : Tree) (hwf : TreeWF P t) (idx sb n : Nat)
+    (hvalid : ∀ i, i < n → (sb + i) * (t.level idx).bs < (t.level idx).size) :
+    rereadBlocks H P t idx sb n = .ok (blockHashes H (levelBytes P t idx) (t.level idx).bs sb n) := by
+  have hbs := (t.level idx).bs_pos
+  have hAl := levelBytes_length P t hwf idx
+  generalize hA : levelBytes P t idx = A at hAl
+  generalize hbsv : (t.level idx).bs = bs at *
+  generalize hsz : (t.level idx).size = size at *
+  have key : ∀ k, k ≤ n → (List.range k).foldl (rereadStep H P t idx) (.ok (min (sb * bs) size, [])) =
+      .ok (min ((sb + k) * bs) size, blockHashes H A bs sb k) := by
+    intro k
+    induction k with
+    | zero => intro _; simp [blockHashes]
+    | succ k ih =>
+      intro hk
+      rw [List.range_succ, List.foldl_append, ih (by omega)]
+      simp only [List.foldl_cons, List.foldl_nil]
+      have hv := hvalid k (by omega)
+      unfold rereadStep
+      simp only
+      rw [levelRead_spec P t hwf, hA, hbsv]
+      simp only
+      rw [Nat.min_eq_left (by omega : (sb + k) * bs ≤ size)]
+      congr 2
+      · rw [slice_length, hAl]
+        rw [show (sb + (k + 1)) * bs = (sb + k) * bs + bs by rw [← Nat.add_assoc, Nat.succ_mul]]
+        omega
+      · unfold blockHashes
+        rw [List.range_succ, List.map_append]
+        simp
+  unfold rereadBlocks
+  rw [hbsv, hsz, key n (Nat.le_refl _)]
+  rfl
+
+/-- the four hash-tree levels of a partition, as the array-level specification sees them -/
+def Lof (P : Bytes) (t : Tree) : Nat → Bytes := fun j => if j < 4 then levelBytes P t j else []
+
+theorem Lof_update (P P' : Bytes) (t : Tree) (idx : Nat) (hidx : idx < 4) (A' : Bytes)
+    (h : ∀ j, j < 4 → levelBytes P' t j = if j = idx then A' else levelBytes P t j) :
+    (fun j => if j = idx then A' else Lof P t j) = Lof P' t := by
+  funext j
+  unfold Lof
+  by_cases hj : j < 4
+  · rw [if_pos hj, if_pos hj, h j hj]
+  · rw [if_neg hj, if_neg hj, if_neg (by omega)]
+
+/-- **refinement**: on a regular geometry the model's `IVFCHashTree.write_data` computes, on the levels of the partition and the
+    master hashes, exactly what the array-level `absWrite` computes; outside the partition window the file is untouched -/
+theorem writeData_refines (H : Bytes → Bytes) (t : Tree) (hH : ∀ x, (H x).length = 0x20) :
+    ∀ (idx : Nat), idx < 4 → ∀ (offset : Nat) (data : Bytes) (s s' : WState),
+      GeomP s.w.bytes t s.master → data ≠ [] → offset + data.length ≤ (t.level idx).size →
+      writeData H t idx offset data s = .ok s' →
+      absWrite H (fun i => (t.level i).bs) idx offset data (Lof s.w.bytes t, s.master) = .ok (Lof s'.w.bytes t, s'.master) ∧
+        s'.w.off = s.w.off ∧ s'.w.size = s.w.size ∧ s'.w.F.length = s.w.F.length ∧
+        (∀ z, (z < s.w.off ∨ s.w.off + s.w.size ≤ z) → s'.w.F[z]? = s.w.F[z]?) ∧
+        (∀ m, GeomP s.w.bytes t m → GeomP s'.w.bytes t m) := by
+  intro idx
+  induction idx with
+  | zero =>
+    intro _ offset data s s' g hne hin h
+    have hdl : 0 < data.length := by cases data with | nil => exact absurd rfl hne | cons a r => simp
+    have htw := geomP_treeWF _ _ _ g
+    unfold writeData at h
+    simp only at h
+    cases hlw : levelWrite s.w t 0 offset data with
+    | error e => rw [hlw] at h; cases h
+    | ok r =>
+      obtain ⟨n, w'⟩ := r
+      rw [hlw] at h
+      simp only at h
+      obtain ⟨l1, l2, l3, l4, l5, l6, l7⟩ := levelWrite_spec s.w t s.master g 0 (by omega) offset data hne hin n w' hlw
+      have g' := l6 _ g
+      have htw' := geomP_treeWF _ _ _ g'
+      obtain ⟨r1, r2, r3, r4⟩ := touched_range offset data.length (t.level 0).bs (t.level 0).bs_pos hdl
+      rw [reread_spec H w'.bytes t htw' 0 _ _ (fun i hi => by
+        have : (offset / (t.level 0).bs + i) * (t.level 0).bs ≤
+            max ((offset + data.length + (t.level 0).bs - 1) / (t.level 0).bs - 1) (offset / (t.level 0).bs) * (t.level 0).bs :=
+          Nat.mul_le_mul_right _ (by omega)
+        omega)] at h
+      simp only at h
+      have hA : levelBytes w'.bytes t 0 = overlay (levelBytes s.w.bytes t 0) offset data := by rw [l7 0 (by omega), if_pos rfl]
+      by_cases herr : offset / (t.level 0).bs + (blockHashes H (levelBytes w'.bytes t 0) (t.level 0).bs (offset / (t.level 0).bs)
+          (max ((offset + data.length + (t.level 0).bs - 1) / (t.level 0).bs - 1) (offset / (t.level 0).bs) + 1 - offset / (t.level 0).bs)).length > s.master.length
+      · rw [if_pos herr] at h; cases h
+      · rw [if_neg herr] at h
+        simp only [Except.ok.injEq] at h
+        subst h
+        refine ⟨?_, l1, l2, l3, l4, l6⟩
+        unfold absWrite
+        simp only
+        have hL0 : Lof s.w.bytes t 0 = levelBytes s.w.bytes t 0 := by unfold Lof; rw [if_pos (by omega)]
+        rw [hL0, absLevelWrite_in _ _ _ (by rw [levelBytes_length _ _ htw]; exact hin), ← hA, if_neg herr]
+        congr 2
+        exact Lof_update _ _ t 0 (by omega) _ (by rw [hA]; exact l7)
+  | succ up ih =>
+    intro hidx offset data s s' g hne hin h
+    have hdl : 0 < data.length := by cases data with | nil => exact absurd rfl hne | cons a r => simp
+    have htw := geomP_treeWF _ _ _ g
+    rw [writeData] at h
+    cases hlw : levelWrite s.w t (up + 1) offset data with
+    | error e => rw [hlw] at h; cases h
+    | ok r =>
+      obtain ⟨n, w'⟩ := r
+      rw [hlw] at h
+      simp only at h
+      obtain ⟨l1, l2, l3, l4, l5, l6, l7⟩ := levelWrite_spec s.w t s.master g (up + 1) hidx offset data hne hin n w' hlw
+      have g' := l6 _ g
+      have htw' := geomP_treeWF _ _ _ g'
+      obtain ⟨r1, r2, r3, r4⟩ := touched_range offset data.length (t.level (up + 1)).bs (t.level (up + 1)).bs_pos hdl
+      generalize hsb : offset / (t.level (up + 1)).bs = sb at *
+      generalize heb : max ((offset + data.length + (t.level (up + 1)).bs - 1) / (t.level (up + 1)).bs - 1) sb = eb at *
+      rw [reread_spec H w'.bytes t htw' (up + 1) _ _ (fun i hi => by
+        have : (sb + i) * (t.level (up + 1)).bs ≤ eb * (t.level (up + 1)).bs := Nat.mul_le_mul_right _ (by omega)
+        omega)] at h
+      simp only at h
+      have hA : levelBytes w'.bytes t (up + 1) = overlay (levelBytes s.w.bytes t (up + 1)) offset data := by
+        rw [l7 (up + 1) hidx, if_pos rfl]
+      have hhl : ∀ x, x ∈ blockHashes H (levelBytes w'.bytes t (up + 1)) (t.level (up + 1)).bs sb (eb + 1 - sb) → x.length = 0x20 := by
+        intro x hx
+        simp only [blockHashes, List.mem_map] at hx
+        obtain ⟨i, _, hi⟩ := hx
+        rw [← hi]; exact hH _
+      have hHF := flatten_hash_length _ hhl
+      rw [blockHashes_length] at hHF
+      have hebn : eb < nblocks (t.level (up + 1)).size (t.level (up + 1)).bs := lt_nblocks _ _ _ (t.level (up + 1)).bs_pos (by omega)
+      have hroom := g.room up (by omega)
+      have hfit : sb * 0x20 + (eb + 1 - sb) * 0x20 ≤ (t.level up).size := by
+        have : sb * 0x20 + (eb + 1 - sb) * 0x20 = (eb + 1) * 0x20 := by rw [← Nat.add_mul]; congr 1; omega
+        have : (eb + 1) * 0x20 ≤ nblocks (t.level (up + 1)).size (t.level (up + 1)).bs * 0x20 := Nat.mul_le_mul_right _ (by omega)
+        omega
+      obtain ⟨i1, i2, i3, i4, i5, i6⟩ := ih (by omega) (sb * 0x20) _ _ s' g'
+        (by intro hc; have := congrArg List.length hc; rw [hHF] at this; simp at this; omega)
+        (by rw [hHF]; exact hfit) h
+      simp only at i2 i3 i4 i5 i6
+      refine ⟨?_, by rw [i2, l1], by rw [i3, l2], by rw [i4, l3], fun z hz => by rw [i5 z (by rw [l1, l2]; exact hz), l4 z hz],
+        fun m gm => i6 m (l6 m gm)⟩
+      rw [absWrite]
+      have hL : Lof s.w.bytes t (up + 1) = levelBytes s.w.bytes t (up + 1) := by unfold Lof; rw [if_pos hidx]
+      rw [hL, absLevelWrite_in _ _ _ (by rw [levelBytes_length _ _ htw]; exact hin), ← hA, hsb, heb,
+        Lof_update _ _ t (up + 1) hidx _ (by rw [hA]; exact l7)]
+      exact i1
+
+theorem wr_frame (F : Bytes) (pos : Nat) (d : Bytes) (B : Nat) (h : pos + d.length ≤ B) (hB : B ≤ F.length) :
+    (if d.isEmpty then F else overlay F pos d).length = F.length ∧
+      ∀ z, B ≤ z → (if d.isEmpty then F else overlay F pos d)[z]? = F[z]? := by
+  by_cases he : d.isEmpty = true
+  · rw [if_pos he]; exact ⟨rfl, fun _ _ => rfl⟩
+  · rw [if_neg he]
+    refine ⟨overlay_length_inside _ _ _ (by omega), fun z hz => ?_⟩
+    rw [overlay_getElem?, if_neg (by omega), if_neg (by omega)]
+
+/-- `_update_hashes` after the descriptor has been written: header hash field, header copy, CMAC -/
+def stage2 (H : Bytes → Bytes) (mac : Bytes → Bytes → Bytes) (cm : Option CmacScheme) (header : Bytes) (hoff : Nat) (F1 dg : Bytes) :
+    Except Err (Bytes × Bytes) :=
+  match cm with
+  | none => .ok ((if (assign header hoff dg).isEmpty then F1 else overlay F1 0x100 (assign header hoff dg)), assign header hoff dg)
+  | some sch =>
+    match genCmac H mac sch (assign header hoff dg) with
+    | .error e => .error e
+    | .ok m => .ok ((if m.isEmpty then (if (assign header hoff dg).isEmpty then F1 else overlay F1 0x100 (assign header hoff dg))
+        else overlay (if (assign header hoff dg).isEmpty then F1 else overlay F1 0x100 (assign header hoff dg)) 0 m), assign header hoff dg)
+
+theorem updateHashes_diff_eq (H : Bytes → Bytes) (mac : Bytes → Bytes → Bytes) (cm : Option CmacScheme) (c : Cont) (F : Bytes)
+    (p : PartSt) (pd : Bytes) (hk : c.kind = .diff) :
+    updateHashes H mac cm c F p pd = stage2 H mac cm c.header 0x34 (if pd.isEmpty then F else overlay F c.tableOff pd) (H pd) := by
+  unfold updateHashes stage2
+  simp only [hk]
+  cases cm <;> rfl
+
+theorem updateHashes_disa_eq (H : Bytes → Bytes) (mac : Bytes → Bytes → Bytes) (cm : Option CmacScheme) (c : Cont) (F : Bytes)
+    (p : PartSt) (pd : Bytes) (hk : c.kind = .disa) :
+    updateHashes H mac cm c F p pd = stage2 H mac cm c.header 0x6C (if pd.isEmpty then F else overlay F (c.tableOff + p.descOff) pd)
+      (H (slice (if pd.isEmpty then F else overlay F (c.tableOff + p.descOff) pd) c.tableOff c.tableSize)) := by
+  unfold updateHashes stage2
+  simp only [hk]
+  cases cm <;> rfl
+
+theorem stage2_frame (H : Bytes → Bytes) (mac : Bytes → Bytes → Bytes) (cm : Option CmacScheme) (header : Bytes) (hoff : Nat)
+    (F1 dg F' header' : Bytes) (B : Nat) (hB1 : 0x200 ≤ B) (hBF : B ≤ F1.length) (hh : header.length = 0x100)
+    (hoffle : hoff + 0x20 ≤ 0x100) (hdl : dg.length = 0x20) (hmac : ∀ k x, (mac k x).length = 0x10)
+    (h : stage2 H mac cm header hoff F1 dg = .ok (F', header')) :
+    F'.length = F1.length ∧ ∀ z, B ≤ z → F'[z]? = F1[z]? := by
+  obtain ⟨_, hl⟩ := assign_slice header hoff dg (by omega)
+  obtain ⟨f2l, f2f⟩ := wr_frame F1 0x100 (assign header hoff dg) B (by omega) hBF
+  unfold stage2 at h
+  cases cm with
+  | none =>
+    simp only [Except.ok.injEq, Prod.mk.injEq] at h
+    obtain ⟨h1, _⟩ := h
+    rw [← h1]
+    exact ⟨f2l, f2f⟩
+  | some sch =>
+    simp only at h
+    cases hg : genCmac H mac sch (assign header hoff dg) with
+    | error e => rw [hg] at h; cases h
+    | ok m =>
+      rw [hg] at h
+      have hml := genCmac_length H mac sch _ m hmac hg
+      simp only [Except.ok.injEq, Prod.mk.injEq] at h
+      obtain ⟨h1, _⟩ := h
+      rw [← h1]
+      obtain ⟨f3l, f3f⟩ := wr_frame (if (assign header hoff dg).isEmpty then F1 else overlay F1 0x100 (assign header hoff dg)) 0 m B
+        (by omega) (by omega)
+      exact ⟨by rw [f3l, f2l], fun z hz => by rw [f3f z hz, f2f z hz]⟩
+
+/-- the descriptor / header / CMAC update only writes below `B` when the header area and the (re-serialised) descriptor end
+    below `B`: in particular it leaves a partition that starts at or after `B` alone -/
+theorem updateHashes_frame (H : Bytes → Bytes) (mac : Bytes → Bytes → Bytes) (cm : Option CmacScheme) (c : Cont) (F : Bytes)
+    (p : PartSt) (pd : Bytes) (F' header' : Bytes) (B : Nat) (hB1 : 0x200 ≤ B) (hB2 : c.tableOff + p.descOff + pd.length ≤ B)
+    (hBF : B ≤ F.length) (hh : c.header.length = 0x100) (hH : ∀ x, (H x).length = 0x20) (hmac : ∀ k x, (mac k x).length = 0x10)
+    (h : updateHashes H mac cm c F p pd = .ok (F', header')) :
+    F'.length = F.length ∧ ∀ z, B ≤ z → F'[z]? = F[z]? := by
+  cases hk : c.kind with
+  | diff =>
+    rw [updateHashes_diff_eq H mac cm c F p pd hk] at h
+    obtain ⟨a, b⟩ := wr_frame F c.tableOff pd B (by omega) hBF
+    obtain ⟨a2, b2⟩ := stage2_frame H mac cm c.header 0x34 _ _ F' header' B hB1 (by rw [a]; exact hBF) hh (by omega) (hH _) hmac h
+    exact ⟨by rw [a2, a], fun z hz => by rw [b2 z hz, b z hz]⟩
+  | disa =>
+    rw [updateHashes_disa_eq H mac cm c F p pd hk] at h
+    obtain ⟨a, b⟩ := wr_frame F (c.tableOff + p.descOff) pd B (by omega) hBF
+    obtain ⟨a2, b2⟩ := stage2_frame H mac cm c.header 0x6C _ _ F' header' B hB1 (by rw [a]; exact hBF) hh (by omega) (hH _) hmac h
+    exact ⟨by rw [a2, a], fun z hz => by rw [b2 z hz, b z hz]⟩
+
+/-- **C18, hash path and frame, on the container model.**  A non-empty write through the verified level-4 view of partition
+    `pi`, on a regular geometry, with the header, the tables and the re-serialised descriptor lying below `Bd ≤` the partition:
+    level 4 becomes the old level 4 with the (clamped) data laid over it at the reader's position; every level-4 block that was
+    touched, or whose chain was intact, has an intact chain up to the new master hashes; and no byte of the file at or after `Bd`
+    outside the partition's window changes. -/
+theorem lv4Write_hash_path (H : Bytes → Bytes) (mac : Bytes → Bytes → Bytes) (cm : Option CmacScheme) (c : Cont) (pi : Nat)
+    (p : PartSt) (hp : c.parts[pi]? = some p) (data : Bytes) (n : Nat) (c' : Cont)
+    (hH : ∀ x, (H x).length = 0x20) (hmac : ∀ k x, (mac k x).length = 0x10) (hnz : ¬ ZeroHash H) (hh : c.header.length = 0x100)
+    (hg : geomOK (p.P c.F) p.tree p.master = true) (hne : writeClamp p data ≠ [])
+    (Bd : Nat) (hB1 : 0x200 ≤ Bd) (hB2 : Bd ≤ p.pOff) (hB3 : p.pOff ≤ c.F.length)
+    (hdesc : ∀ m pd, partdescToBytes ⟨p.difi, p.ivfc, p.dpfs, m⟩ p.descSize = some pd → c.tableOff + p.descOff + pd.length ≤ Bd)
+    (h : lv4Write H mac cm c pi data = .ok (n, c')) :
+    ∃ p', c'.parts[pi]? = some p' ∧ p'.tree = p.tree ∧ p'.pOff = p.pOff ∧ p'.pSize = p.pSize ∧
+      Lof (p'.P c'.F) p.tree 3 = overlay (Lof (p.P c.F) p.tree 3) p.seek (writeClamp p data) ∧
+      (∀ b, b * (p.tree.level 3).bs < (Lof (p.P c.F) p.tree 3).length →
+        (touched p.seek (writeClamp p data).length (p.tree.level 3).bs b ∨ chainOK H p.bsOf p.master (Lof (p.P c.F) p.tree) 3 b) →
+        chainOK H p.bsOf p'.master (Lof (p'.P c'.F) p.tree) 3 b) ∧
+      c'.F.length = c.F.length ∧
+      (∀ z, Bd ≤ z → (z < p.pOff ∨ p.pOff + p.pSize ≤ z) → c'.F[z]? = c.F[z]?) := by
+  have g := geomOK_spec _ _ _ hg
+  have htw := geomP_treeWF _ _ _ g
+  have hplt : pi < c.parts.length := by
+    rcases Nat.lt_or_ge pi c.parts.length with hl | hl
+    · exact hl
+    · rw [List.getElem?_eq_none hl] at hp; cases hp
+  unfold lv4Write at h
+  rw [hp] at h
+  simp only at h
+  unfold writeClamp at hne ⊢
+  generalize hd : (if p.seek + data.length > p.ivfc.lv4.size then data.take (p.ivfc.lv4.size - p.seek) else data) = d at h hne ⊢
+  have hde : d.isEmpty = false := by cases d with | nil => exact absurd rfl hne | cons _ _ => rfl
+  rw [hde] at h
+  simp only [Bool.false_eq_true, if_false] at h
+  by_cases hw : (!c.writable) = true
+  · rw [if_pos hw] at h; cases h
+  · rw [if_neg hw] at h
+    have hlv4 : (p.tree.level 3).size = p.ivfc.lv4.size := rfl
+    have hdin : p.seek + d.length ≤ (p.tree.level 3).size := by
+      rw [hlv4, ← hd]
+      by_cases hc : p.seek + data.length > p.ivfc.lv4.size
+      · rw [if_pos hc, List.length_take]
+        have : d.length ≠ 0 := by intro h0; exact hne (List.eq_nil_of_length_eq_zero h0)
+        rw [← hd, if_pos hc, List.length_take] at this
+        omega
+      · rw [if_neg hc]; omega
+    cases hwd : writeData H p.tree 3 p.seek d ⟨⟨c.F, p.pOff, p.pSize⟩, p.master, p.caches, false⟩ with
+    | error e => rw [hwd] at h; cases h
+    | ok s =>
+      rw [hwd] at h
+      simp only at h
+      have hPeq : (⟨c.F, p.pOff, p.pSize⟩ : Win).bytes = p.P c.F := rfl
+      obtain ⟨r1, r2, r3, r4, r5, r6⟩ := writeData_refines H p.tree hH 3 (by omega) p.seek d _ s (by rw [hPeq]; exact g) hne hdin hwd
+      simp only at r2 r3 r4 r5 r6
+      rw [hPeq] at r1 r6
+      have hdl : 0 < d.length := by cases d with | nil => exact absurd rfl hne | cons a r => simp
+      have hL3 : (Lof (p.P c.F) p.tree 3).length = (p.tree.level 3).size := by
+        unfold Lof; rw [if_pos (by omega)]; exact levelBytes_length _ _ htw 3
+      obtain ⟨a1, a2, a3, a4, a5⟩ := absWrite_chain H (fun i => (p.tree.level i).bs) (fun i => (p.tree.level i).bs_pos) hH hnz 3 p.seek d
+        (Lof (p.P c.F) p.tree) p.master (Lof s.w.bytes p.tree) s.master hdl (by rw [hL3]; exact hdin)
+        (by
+          intro i hi
+          unfold Lof
+          rw [if_pos (by omega), if_pos (by omega), levelBytes_length _ _ htw, levelBytes_length _ _ htw]
+          exact g.room i hi) r1
+      -- whatever the descriptor update does, the partition window reads the same afterwards
+      have hfin : ∀ F'', F''.length = s.w.F.length → (∀ z, Bd ≤ z → F''[z]? = s.w.F[z]?) →
+          slice F'' p.pOff p.pSize = s.w.bytes := by
+        intro F'' _ hfr
+        unfold Win.bytes
+        rw [r2, r3]
+        apply slice_congr
+        intro i hi1 _
+        exact hfr i (by omega)
+      have hpres : ∀ F'', F''.length = s.w.F.length → (∀ z, Bd ≤ z → F''[z]? = s.w.F[z]?) →
+          ∃ p', (c.parts.set pi { p with master := s.master, caches := s.caches, seek := p.seek + d.length })[pi]? = some p' ∧
+            p'.tree = p.tree ∧ p'.pOff = p.pOff ∧ p'.pSize = p.pSize ∧
+            Lof (p'.P F'') p.tree 3 = overlay (Lof (p.P c.F) p.tree 3) p.seek d ∧
+            (∀ b, b * (p.tree.level 3).bs < (Lof (p.P c.F) p.tree 3).length →
+              (touched p.seek d.length (p.tree.level 3).bs b ∨ chainOK H p.bsOf p.master (Lof (p.P c.F) p.tree) 3 b) →
+              chainOK H p.bsOf p'.master (Lof (p'.P F'') p.tree) 3 b) ∧
+            F''.length = c.F.length ∧
+            (∀ z, Bd ≤ z → (z < p.pOff ∨ p.pOff + p.pSize ≤ z) → F''[z]? = c.F[z]?) := by
+        intro F'' hl hfr
+        refine ⟨_, List.getElem?_set_self hplt, rfl, rfl, rfl, ?_, ?_, by rw [hl, r4], ?_⟩
+        · show Lof (slice F'' p.pOff p.pSize) p.tree 3 = _
+          rw [hfin F'' hl hfr]; exact a2
+        · intro b hb1 hb2
+          show chainOK H p.bsOf s.master (Lof (slice F'' p.pOff p.pSize) p.tree) 3 b
+          rw [hfin F'' hl hfr]
+          exact a5 b hb1 hb2
+        · intro z hz1 hz2
+          rw [hfr z hz1, r5 z hz2]
+      by_cases hmt : s.masterTouched = true
+      · rw [if_pos hmt] at h
+        cases hpd : partdescToBytes ⟨p.difi, p.ivfc, p.dpfs, s.master⟩ p.descSize with
+        | none => rw [hpd] at h; cases h
+        | some pd =>
+          rw [hpd] at h
+          simp only at h
+          cases hu : updateHashes H mac cm c s.w.F p pd with
+          | error e => rw [hu] at h; cases h
+          | ok r =>
+            obtain ⟨F'', header'⟩ := r
+            rw [hu] at h
+            simp only [Except.ok.injEq, Prod.mk.injEq] at h
+            obtain ⟨_, hc'⟩ := h
+            rw [← hc']
+            obtain ⟨f1, f2⟩ := updateHashes_frame H mac cm c s.w.F p pd F'' header' Bd hB1 (hdesc _ _ hpd) (by rw [r4]; omega) hh hH hmac hu
+            exact hpres F'' f1 f2
+      · rw [if_neg hmt] at h
+        simp only [Except.ok.injEq, Prod.mk.injEq] at h
+        obtain ⟨_, hc'⟩ := h
+        rw [← hc']
+        exact hpres s.w.F rfl (fun _ _ => rfl)
+
 end Save
 end Pyctr
